@@ -194,6 +194,10 @@ impl SymbolMap {
         &self,
         loc: FileRange,
     ) -> Option<impl Iterator<Item = (FileRange, SymbolId)> + '_> {
+        // an empty range contains no symbol (and iset panics on empty query intervals)
+        if loc.range.is_empty() {
+            return None;
+        }
         let map = self.pos_to_symbol_map.get(&loc.file)?;
         Some(map.iter(loc.range).map(move |(range, id)| {
             (
